@@ -1046,8 +1046,11 @@ inline bool Transport::setReadMode(SessionId sid, ReadMode mode)
       oldMode = it->second;
     }
 
-    // If NOT switching from Sync to Async, update mode directly
-    if (!(oldMode == ReadMode::Sync && mode == ReadMode::Async))
+    // If NOT switching (back) to Async, update mode directly. A switch to Async
+    // from Sync — or from Disabled, which can still hold bytes buffered while the
+    // session was in Sync mode — must first hand those bytes to the data callback,
+    // otherwise later arrivals would overtake them (stream reordering).
+    if (!(oldMode != ReadMode::Async && mode == ReadMode::Async))
     {
       _impl->readModes[sid] = mode;
 
@@ -1063,9 +1066,10 @@ inline bool Transport::setReadMode(SessionId sid, ReadMode mode)
     }
   } // syncMutex released
 
-  // Step 2: Sync→Async transition with ordered flush.
-  // Keep mode as Sync during flush so the I/O thread continues buffering
-  // any data that arrives mid-flush. Drain in a loop until empty.
+  // Step 2: Sync→Async (or Disabled→Async) transition with ordered flush.
+  // Keep the old mode during flush so the I/O thread continues buffering
+  // (Sync) or dropping (Disabled) any data that arrives mid-flush. Drain in a
+  // loop until empty.
   DataCallback cb;
   {
     std::lock_guard<std::mutex> cbLk(_impl->callbackMutex);
